@@ -26,7 +26,7 @@ import c09_fmt as F
 META = {
     "category": "proof",
     "text": "Coq theorems (Damage/Props_C09.v, closed under the global context) over byte-level models of the SST, log and manifest readers on ARBITRARY bytes: the readers never panic, never run out of fuel, never allocate more than the file (SST, manifest) or a constant (log); damage never changes what a reader returned before reaching it; every block / frame / line a reader accepts has passed a checksum comparison; a damaged stored checksum is always detected; a damaged payload is detected under the explicit hypothesis that crc tells it from the original (crc is a Section variable: the detection half is partial by construction, CRC32C's error-detection properties are not proved); the unchecksummed regions (SST final block and trailing offset, log header-size byte, manifest separator lines) by case analysis with _refuted witnesses where the property fails (the SST final block's own setsum / smallest / biggest timestamp are accepted altered; a tiny log frame at a block end is skipped). The CRC-dependent half is decided on samples: files from the real builders, damaged exhaustively (bit flips, byte overwrites, adjacent multi-byte overwrites written with valid UTF-8 characters and varint-lengthening patterns, truncations, extensions, short sequences), read by the real readers under an allocation-counting allocator, compared with the pristine file and with the extracted model.",
-    "note": "Partial: detection inside checksummed regions is proved only under stated hypotheses on crc and otherwise sampled. Trusted: Coq kernel; tools/constants.py; ExtrOcamlBasic extraction + ocaml/damage driver (native crc32c, partition_point as a count); harness c09 (counting global allocator); Python crc32c / SipHash-2-4 / layout parser. BlockCursor::prev (with the restart-interval cache), backward walks and both keys of Sst::metadata are modelled and compared; every prev() is proved total, but that a whole backward walk ENDS on a CRC-consistent forged block is not proved (decided by samples: the harness reports RUNAWAY, the model FUEL). Not modelled: std's partition_point on unsorted forged index keys. Known classes: sst-final-block-metadata-unchecksummed, log-tiny-frame-at-block-end, append-wellformed-suffix.",
+    "note": "Partial: detection inside checksummed regions is proved only under stated hypotheses on crc and otherwise sampled. Trusted: Coq kernel; tools/constants.py; ExtrOcamlBasic extraction + ocaml/damage driver (native crc32c, partition_point as a count); harness c09 (counting global allocator); Python crc32c / SipHash-2-4 / layout parser. BlockCursor::prev (with the restart-interval cache), backward walks and both keys of Sst::metadata are modelled and compared; every prev() is proved total, but that a whole backward walk ENDS on a CRC-consistent forged block is not proved (decided by samples: the harness reports RUNAWAY, the model FUEL). Not modelled: std's partition_point on unsorted forged index keys. Known classes: sst-consistent-index-forgery, sst-final-block-metadata-unchecksummed, log-tiny-frame-at-block-end, append-wellformed-suffix.",
 }
 
 PROPS = "theories/Damage/Props_C09.v"
@@ -613,6 +613,21 @@ def run(chk):
         else:
             patches = damage_set(rng, b["bytes"], b["regions"], b["unchecked"], chk.tier, stats,
                                  stride_target=110 if quick else 10**9)
+        if b["kind"] == "sst":
+            # consistent forgery of the index block's restart count: num_restarts (the last four bytes
+            # of the index block) overwritten with every value around the points where Block::new's
+            # footer arithmetic changes sign, and the block's crc32c in the (unchecksummed) final
+            # block recomputed to match: five to eight bytes differ
+            d = b["bytes"]
+            L = b["layout"]
+            lo, hi = L.index_payload
+            for n in restart_count_window(hi - lo):
+                newp = d[lo:hi - 4] + F.le32(n)
+                p = ",".join(x for x in (F.overwrite_patch(d, hi - 4, F.le32(n)),
+                                         F.overwrite_patch(d, L.index["crc_at"], F.le32(F.crc32c(newp)))) if x != "-")
+                if p:
+                    patches.append(p)
+                    stats["index_count_forgeries"] += 1
         if b["kind"] == "log" and "big" not in b:
             # a directed sequence: the first frame's header rewritten in place to announce a body of
             # 2^27 bytes (the reader resizes its buffer to that before read_exact fails): the
@@ -668,6 +683,9 @@ def run(chk):
                 continue
             else:
                 c = "different"
+        if c == "different" and b["kind"] == "sst" and consistent_index_forgery(b, p):
+            c = "known:sst-consistent-index-forgery"
+            known_hits["sst-consistent-index-forgery"] += 1
         if c == "different" and b["kind"] in ("log", "mani") and re.fullmatch(r"x[0-9a-f]+", p) and wellformed_suffix(b, p):
             # decided below, on the verbose output: the pristine result intact and first, then more
             suffix_candidates.append(len(pending))
@@ -772,7 +790,7 @@ def run(chk):
             corr.append({"base": b["id"], "patch": p, "impl": ilines[i][:500], "model": ml[:500]})
 
     # ---- malformed stream: CRC-consistent forged SSTs and raw blocks (arbitrary bytes for the readers)
-    mal = malformed_cases(rng, 2500 if quick else 60000, stats)
+    mal = malformed_cases(rng, 2500 if quick else 60000, stats) + footer_sweep_cases(rng, quick, stats)
     # every forged file is its own definition: send them in independent slices
     def run_mal(exe, model):
         import concurrent.futures
@@ -885,6 +903,7 @@ def run(chk):
 KNOWN_TEXT = {
     "log-tiny-frame-at-block-end": "a log frame of at most 20 bytes that starts within 20 bytes of the next 1 MiB block boundary is silently skipped when its header-size byte is overwritten with 0 (LogIterator takes it for padding)",
     "append-wellformed-suffix": "a single appended suffix that is itself a well-formed, correctly checksummed log frame / manifest separator is read as further data after the pristine result, which is returned intact and first (indistinguishable from a legitimate append)",
+    "sst-consistent-index-forgery": "an index block rewritten TOGETHER with its crc32c in the unchecksummed final block (the checksum recomputed to match) is accepted: the table presents what the rewritten index says",
     "sst-final-block-metadata-unchecksummed": "damage confined to the unchecksummed SST final block leaves the file opening and every key, value, timestamp of an entry and tombstone intact, but Sst::metadata() presents a smallest_timestamp / biggest_timestamp / setsum the file never held as genuine (lsmtk derives its next sequence number and the level order from them)",
 }
 
@@ -970,6 +989,24 @@ def in_tiny_frame_class(b, patch):
     off = int(m.group(1))
     nb = ((off >> 20) + 1) << 20
     return nb - off <= 20 and any(n.endswith(".hsz") and lo == off for n, lo, hi in b["regions"])
+
+
+def consistent_index_forgery(b, patch):
+    """the damaged file differs from the pristine one only inside the index block's payload and in
+    the four bytes of that block's crc32c in the final block, and the stored crc32c IS the checksum
+    of the changed payload: a rewrite that recomputed the checksum, which no reader can tell from a
+    file written that way"""
+    d0 = b["bytes"]
+    d1 = F.patch_apply(d0, patch)
+    if len(d1) != len(d0):
+        return False
+    L = b["layout"]
+    lo, hi = L.index_payload
+    ca = L.index["crc_at"]
+    for i, (x, y) in enumerate(zip(d0, d1)):
+        if x != y and not (lo <= i < hi or ca <= i < ca + 4):
+            return False
+    return d1[lo:hi] != d0[lo:hi] and int.from_bytes(d1[ca:ca + 4], "little") == F.crc32c(d1[lo:hi])
 
 
 def split_final_ops(b, patch):
@@ -1092,6 +1129,42 @@ def big_damage(rng, b, stats):
     patches += ["x00", "x" + b["bytes"][-30:].hex()]
     stats["offsets"] += len(offs)
     return patches
+
+
+def restart_count_window(length):
+    """the values of a block's trailing num_restarts around which Block::new's arithmetic changes
+    sign, for a block of `length` bytes: 4n+5 = length (restart array and capstone just fit),
+    4n+5+footer_head = length for footer_head 2..4 (the footer just fits), each +-4, and the extremes"""
+    vals = {0, 1, 2, 2**32 - 1, 2**30, 2**31}
+    for h in (0, 2, 3, 4, 5):
+        c = (length - 5 - h) // 4
+        vals.update(v for v in range(c - 4, c + 5) if 0 <= v < 2**32)
+    return sorted(vals)
+
+
+def footer_sweep_cases(rng, quick, stats):
+    """Block::new on blocks of every small length, real sealed blocks and arbitrary byte strings,
+    with the trailing num_restarts overwritten with every value of restart_count_window"""
+    out = []
+    qs = [(b"a", 9), (b"c", 2**64 - 1)]
+    lengths = list(range(4, 140 if quick else 420))
+    if quick:
+        lengths += [rng.range(140, 400) for _ in range(12)]
+    for L in lengths:
+        bases = [rng.bytes(L)]
+        # a sealed block of exactly L bytes when one exists: one put whose value pads to the length
+        for v in range(0, L):
+            blk = F.enc_block(F.enc_kve(0, b"a", 5, b"\x07" * v), [0])
+            if len(blk) == L:
+                bases.append(blk)
+                break
+            if len(blk) > L:
+                break
+        for base in bases:
+            for n in restart_count_window(L):
+                out.append(("w%d" % len(out), "blk", base[:-4] + F.le32(n), qs))
+    stats["footer_sweep_blocks"] += len(out)
+    return out
 
 
 def malformed_cases(rng, n, stats):
